@@ -502,6 +502,20 @@ def args_worker(_):
     buffers_unchanged("pad/unpad", lambda d, p: (pad(d, 16), unpad(p, 16)), ba(20), bytearray(pad(bytes(20), 16)))
     buffers_unchanged("strxor", lambda a, b: (strxor(a, b), strxor_c(a, 7)), ba(33), ba(33, 50))
     buffers_unchanged("bytes_to_long", lambda d: bytes_to_long(d), ba(33, 1))
+    from Crypto.Math._IntegerNative import IntegerNative
+    from Crypto.Math._IntegerCustom import IntegerCustom
+    ibacks = [("Native", IntegerNative), ("Custom", IntegerCustom)]
+    try:
+        from Crypto.Math._IntegerGMP import IntegerGMP
+        ibacks.append(("GMP", IntegerGMP))
+    except (ImportError, OSError):
+        pass
+    for bname, K in ibacks:
+        for order in ("big", "little"):
+            buffers_unchanged("Integer%s.from_bytes(%s)" % (bname, order), lambda d, K=K, order=order: (K.from_bytes(d, order), K.from_bytes(d, order)), ba(33, 1))
+    from Crypto.Protocol import DH
+    buffers_unchanged("DH.import_x25519_public_key", lambda d: (DH.import_x25519_public_key(d), DH.import_x25519_public_key(d)), ba(32, 9))
+    buffers_unchanged("DH.import_x448_public_key", lambda d: (DH.import_x448_public_key(d), DH.import_x448_public_key(d)), ba(56, 9))
     buffers_unchanged("Shamir.split", lambda sec: Shamir.split(2, 3, sec), ba(16, 1))
     shares = Shamir.split(2, 3, bytes(range(16)))
     buffers_unchanged("Shamir.combine", lambda a, b: Shamir.combine([(shares[0][0], a), (shares[1][0], b)]), bytearray(shares[0][1]), bytearray(shares[1][1]))
